@@ -350,3 +350,30 @@ func VP_AZ_e2e() {
 	}
 	vpCover("reached", true)
 }
+
+
+// C15 / C16: purity
+func VP_AZ_pure() {
+	n := vpConfig("n")
+	data := vpBytes("d", n)
+	for i := 0; i < n; i++ {
+		vpAssume(data[i] >= 0x80)
+	}
+	vpTrackGlobals()
+	a, errA := Encode(data, 33, 0)
+	_, _ = Encode([]byte("Some Other Text 123"), 50, 5)
+	b, errB := Encode(data, 33, 0)
+	vpAssert((errA == nil) == (errB == nil), "the same call succeeds or fails the same way every time")
+	if errA == nil && errB == nil {
+		vpAssert(a.Bounds() == b.Bounds() && a.Content() == b.Content(), "the same call returns the same barcode whatever was encoded before")
+		if a.Bounds() == b.Bounds() {
+			for x := 0; x < a.Bounds().Dx(); x++ {
+				for y := 0; y < a.Bounds().Dy(); y++ {
+					vpAssert(a.At(x, y) == b.At(x, y), "the same call returns the same pixels whatever was encoded before")
+				}
+			}
+		}
+	}
+	vpAssert(vpGlobalWrites() == 0, "no package-level state is written")
+	vpCover("reached", true)
+}
